@@ -18,7 +18,42 @@ func newVC(prog *Program, specs *SpecDB, fn *ssa.Function, fc *FuncContract, hea
 	if fn != nil {
 		vc.fname = funcName(fn)
 	}
+	// datatype declarations discovered in earlier passes come first, so that
+	// heap constants declared from remembered sorts can mention them
+	if sd := sortDeclsFor[&heapInfoKey{}]; sd != nil {
+		_ = sd
+	}
+	vc.sortDecls = persistFor(heapInfo)
+	for _, d := range vc.sortDecls.lines {
+		vc.decls = append(vc.decls, d)
+	}
+	for k := range vc.sortDecls.keys {
+		vc.declared[k] = true
+	}
 	return vc
+}
+
+type heapInfoKey struct{}
+
+var sortDeclsFor = map[*heapInfoKey]*persistDecls{}
+
+// persistDecls keeps datatype declarations across the passes of one
+// generate() call (keyed by the identity of the shared heapInfo map).
+type persistDecls struct {
+	lines []string
+	keys  map[string]bool
+}
+
+var persistByMap = map[string]*persistDecls{}
+
+func persistFor(m map[string]*HeapInfo) *persistDecls {
+	key := fmt.Sprintf("%p", m)
+	if p, ok := persistByMap[key]; ok {
+		return p
+	}
+	p := &persistDecls{keys: map[string]bool{}}
+	persistByMap[key] = p
+	return p
 }
 
 // generate produces the obligations of one function under contract. The
